@@ -369,8 +369,9 @@ def run(ctx):
         # an emission made directly in the `)` step (no emitting loop of its own): the step lowers the depth by 1 + #emissions
         for t, p in closes:
             pops = sum(1 for k, x in t.items if k == "e" and x[0] == "call" and x[1].endswith("::pop"))
-            nested = any(k == "e" and x[0] == "loophead" and x[1] != Hmain for k, x in t.items)
-            if pops and not nested and D in t.pre and D in t.post:
+            nested = any(k == "e" and x[0] == "loophead" and x[1] != Hmain and x[2] == b["path"] for k, x in t.items)
+            # (an emitting loop inside an inlined helper leaves the caller's depth as the caller wrote it: still judged here)
+            if pops and not nested and D in t.pre and D in t.post and not isinstance(rel.canon(t.post[D]), Unknown):
                 from analysis import dom as _dom
                 l0 = _dom.linear(_dom.parse_term(rel.cstr(t.pre[D]).replace("binop:", "")))
                 l1 = _dom.linear(_dom.parse_term(rel.cstr(t.post[D]).replace("binop:", "")))
